@@ -50,6 +50,12 @@ def race(two, depth, extra=(), timeout=1500):
              includes=["models/redir_thread.h"], export_local=True, remove_bodies=["p_spinlock_lock"],
              unwindset={"strlen.0": 4}, timeout=timeout, object_bits=11, funcs=FUNCS,
              bounds={"threads": 2 if two else 1, "preemption_depth": depth, "raced_key": "library key" if "RACE_LIB" in extra else "user key"})
+def keyfree(self_free):
+    return Q("keyfree_%s" % ("by_holder" if self_free else "by_other_thread"), "harness/C05_keyfree.c", units=UNITS, models=MODELS,
+             defs=["TE_DEPTH=2"] + (["FREE_SELF"] if self_free else []) + EMUL,
+             includes=["models/redir_thread.h"], export_local=True, remove_bodies=["p_spinlock_lock"],
+             unwindset={"strlen.0": 4}, timeout=900, object_bits=11, funcs=FUNCS + ["p_uthread_local_free", "p_uthread_shutdown"],
+             bounds={"threads": 1 if self_free else 2, "order": "store < local_free < thread end (fixed)", "exit_style": "symbolic"})
 def fam(f, nops, tops, depth, pos_b=99, ja=1, jb=1, prewarm=True, named=False, timeout=1500):
     defs = ["POS_B=%d" % pos_b, "JOINABLE_A=%d" % ja, "JOINABLE_B=%d" % jb]
     if f != "ALL": defs.append("FAM_" + f)
@@ -79,6 +85,8 @@ def queries(tier):
         qs += [fam("ALL", 3, 2, 1, ja=1)]
         # lazy creation of the platform key raced by main and 1 / 2 threads (user key, library key)
         qs += [race(False, 1), race(True, 1), race(False, 1, ["RACE_LIB"]), race(True, 1, ["RACE_LIB"])]
+        # reference key freed while a thread still holds a value under it, then the thread ends
+        qs += [keyfree(True), keyfree(False)]
     else:
         qs += [fam("LIFE", 5, 2, 1, ja=1), fam("LIFE", 5, 2, 1, ja=0), fam("LIFE", 4, 2, 1, ja=1, named=True), fam("LIFE", 4, 2, 1, ja=0, named=True)]
         qs += [fam("LIFE", 4, 2, 1, pos_b=pb, ja=ja, jb=jb, timeout=3000) for pb in (0, 1, 2) for ja, jb in JD]
@@ -90,4 +98,5 @@ def queries(tier):
         # preemption depth 2: B inside A inside main
         qs += [fam("LIFE", 1, 1, 2, pos_b=0, timeout=3000), fam("LIFE", 1, 1, 2, pos_b=0, ja=0, jb=0, timeout=3000)]
         qs += [race(False, 1), race(True, 1), race(False, 1, ["RACE_LIB"]), race(True, 1, ["RACE_LIB"])]
+        qs += [keyfree(True), keyfree(False)]
     return qs
